@@ -118,10 +118,11 @@ func genC19(t *rapid.T) C19Case {
 // pool adapters -------------------------------------------------------------
 
 type c19Buf struct {
-	bp  *[]byte
-	bb  *bytes.Buffer
-	id  uintptr
-	tag byte
+	bp    *[]byte
+	bb    *bytes.Buffer
+	id    uintptr
+	tag   byte
+	wrote int
 }
 
 func (b *c19Buf) capacity() int {
@@ -290,6 +291,12 @@ func runC19(c C19Case) (out core.Outcome) {
 	worker := func(w int, ops []C19Op) {
 		var held []*c19Buf
 		verify := func(b *c19Buf) {
+			if b.bb != nil && b.bb.Len() != b.wrote {
+				m.mu.Lock()
+				m.fail(core.Viol("C19/held-buffer-overwritten", "worker %d: a held bytes.Buffer holding %d bytes has length %d now: somebody else used or reset it", w, b.wrote, b.bb.Len()))
+				m.mu.Unlock()
+				return
+			}
 			for i, x := range b.full() {
 				if x != b.tag {
 					m.mu.Lock()
@@ -329,6 +336,12 @@ func runC19(c C19Case) (out core.Outcome) {
 				f := b.full()
 				for j := range f {
 					f[j] = b.tag
+				}
+				if b.bb != nil {
+					// use the buffer as a buffer: its length belongs to the holder as well
+					b.bb.Reset()
+					b.wrote = imin(b.bb.Cap(), 1+(w+i)%17)
+					b.bb.Write(f[:b.wrote])
 				}
 				held = append(held, b)
 			case "put":
